@@ -128,7 +128,7 @@ Proof.
         assert (Hm2 : wmono t (store t a v1)).
         { unfold v1. destruct (add_response_w (with_flow (get t a) (n_used (get t a)) (n_resp (get t a)) rest) ty now) as [A B].
           apply wmono_store; [rewrite A; reflexivity|rewrite B; apply incl_refl]. }
-        specialize (IH (store t a v1) a now (acc ++ [m])).
+        specialize (IH (store t a v1) a now (acc ++ [(ty, m)])).
         destruct IH as (Hm3 & Hf3 & Hn3).
         { rewrite get_store_same. unfold v1. rewrite add_response_held. cbn [with_flow n_held]. cbn in Hlen. lia. }
         split; [eapply wmono_trans; eauto|]. split; [|exact Hn3].
